@@ -185,6 +185,39 @@ func pair(a, b string) string {
 	return a + "+" + b
 }
 
+// firstSeededMember: is key k the first member of the ascending index idx in the seeded state
+// (strictly smallest expiry among the records that have one / smallest key)?
+func (c *checker) firstSeededMember(idx, k string) bool {
+	var x *recSpec
+	for i := range c.s.Recs {
+		if c.s.Recs[i].Key == k {
+			x = &c.s.Recs[i]
+		}
+	}
+	if x == nil {
+		return false
+	}
+	for i := range c.s.Recs {
+		o := &c.s.Recs[i]
+		if o.Key == k {
+			continue
+		}
+		switch idx {
+		case "exp":
+			if x.NoExp || (!o.NoExp && o.Exp <= x.Exp) {
+				return false
+			}
+		case "key":
+			if o.Key <= x.Key {
+				return false
+			}
+		default:
+			return false
+		}
+	}
+	return true
+}
+
 // sortKeyQuiet: did no other request rewrite the attribute the index is sorted by while ev ran?
 func (c *checker) sortKeyQuiet(k, idx string, self int, ev *event) bool {
 	if idx == "key" {
@@ -649,6 +682,59 @@ func checkLog(s *sched, lg *runLog) (findings []finding, stats map[string]int) {
 				"key %s (version %d): Delete (request %d) was acknowledged at %d; %s (request %d, started at %d) afterwards returned that record", r.c.Key, r.c.B.Ver, rm.op, rm.end, r.ev.Kind, r.ev.Op, r.ev.Start)
 		}
 	}
+	// A mutator that was parked HOLDING the guard of the first member X of the index a Shift claim
+	// walks (Force "guard"; parked from GuardAt, before the claim started, to GuardResume): the claim
+	// cannot get past X before GuardResume, so it visits every other record after that instant, and
+	// X itself only after the holder has finished with it. A record whose removal was acknowledged
+	// before GuardResume - or that the holder itself removed - must therefore not be handed out.
+	for hi, hev := range lg.Events {
+		if hev == nil || c.ops[hi].Force != "guard" || c.ops[hi].Wave != 0 || hev.GuardAt == 0 || hev.Err != "" {
+			continue
+		}
+		ho := c.ops[hi]
+		xk := ho.Keys[0]
+		for ci, cev := range lg.Events {
+			co := c.ops[ci]
+			if cev == nil || cev.Err != "" || co.Wave != 0 || !(co.Kind == "shx" || co.Kind == "shm") || co.Desc || cev.Start < hev.GuardAt {
+				continue
+			}
+			idx := "exp"
+			if co.Kind == "shm" {
+				idx = co.Index
+			}
+			if !c.firstSeededMember(idx, xk) {
+				continue
+			}
+			c.stats["guard_window_claims"]++
+			for j := range cev.Claims {
+				cl := &cev.Claims[j]
+				if cl.B.Bad != "" || cl.Key == anchorKey {
+					continue
+				}
+				id := fmt.Sprintf("%s#%d", cl.Key, cl.B.Ver)
+				if cl.Key == xk {
+					removedByHolder := ho.Kind == "del" && hev.Statuses[xk] == "DELETED" && c.inc[xk][cl.B.Ver] != nil && c.inc[xk][cl.B.Ver].by == -1
+					for _, hc := range hev.Claims {
+						if ho.Kind == "sbk" && hc.Key == xk && hc.B.Ver == cl.B.Ver && hc.B.Bad == "" {
+							removedByHolder = true
+						}
+					}
+					if removedByHolder {
+						c.fail("resurrect:returned-by="+cev.Kind+":removed-by="+ho.Kind+":claim-waited-for-the-removers-guard",
+							"key %s (version %d): %s (request %d) held the record's guard from before the claim started until it had removed the record (answer: removed); %s (request %d) waited for that guard and then handed the record out", xk, cl.B.Ver, ho.Kind, hi, cev.Kind, ci)
+					}
+					continue
+				}
+				for _, rm := range removed[id] {
+					if rm.op != ci && rm.end < hev.GuardResume {
+						c.fail("resurrect:returned-by="+cev.Kind+":removed-by="+rm.kind+":claim-waited-for-a-guard-meanwhile",
+							"key %s (version %d) was removed by %s (request %d, acknowledged at %d) while %s (request %d) was waiting for the guard of the first record of its index (held by request %d until %d); the claim then handed the removed record out", cl.Key, cl.B.Ver, rm.kind, rm.op, rm.end, cev.Kind, ci, hi, hev.GuardResume)
+					}
+				}
+			}
+		}
+	}
+
 	// snapshots after quiescence
 	for _, sn := range []struct {
 		name string
